@@ -287,6 +287,18 @@ M('c11-vector-index-signed', 'C11', 'src/containers/qvector.c',
   "static void *get_at(qvector_t *vector, int index, bool newmem) {\n    int num = (int) vector->num;\n    if (index < 0) {\n        index += num;\n    }\n    if (index >= num) {",
   'IDX', 'get_at', 'signed comparison lets an index below -n through: read before the buffer')
 
+# ---- rules added after seeded changes were missed ---------------------------------------------
+M('c12-move-without-size', 'C12', 'src/containers/qtreetbl.c',
+  "            obj->data = minobj->data;\n            obj->datasize = minobj->datasize;", "            obj->data = minobj->data;",
+  'R2-move', 'remove_obj', 'successor payload moved up without its size')
+M('c12-hasharr-inplace', 'C12', 'src/containers/qhasharr.c',
+  "        tblslots[newidx].datasize = copysize;\n        savesize += copysize;", "        savesize += copysize;", 'I7', 'put_data', 'stored length not updated')
+M('c07-hasharr-len-missing', 'C07', 'src/containers/qhasharr.c',
+  "        tblslots[newidx].datasize = copysize;\n        savesize += copysize;", "        tblslots[newidx].datasize = datasize;\n        savesize += copysize;", 'I', 'put_data', 'stored length is the total, not the slot share')
+M('c11-realloc-zero', 'C11', 'src/containers/qvector.c',
+  "    if (newmax == 0) {\n        free(vector->data);\n        vector->data = NULL;\n        vector->max = 0;\n        vector->num = 0;\n\n        vector->unlock(vector);\n        return true;\n    }\n", "",
+  'M5', 'qvector_resize', 'resize(0) reaches realloc(p, 0)')
+
 
 def run_selftest(prop, rep, rule_fn, config='cmake-release'):
     """Apply every mutant of `prop` to a scratch copy, run rule_fn(prog, report) on it, and
